@@ -135,6 +135,9 @@ class MinPathCover(pathmodel.AbstractPathModelDAG):
         self.G = stdag.stDAG(self.G_internal, additional_starts=additional_starts_internal, additional_ends=additional_ends_internal)
         self.subpath_constraints = subpath_constraints_internal
         self.edges_to_ignore = self.G.source_sink_edges.union(edges_to_ignore_internal)
+        self.edges_to_ignore_internal = edges_to_ignore_internal
+        self.additional_starts_internal = additional_starts_internal
+        self.additional_ends_internal = additional_ends_internal
 
         self.subpath_constraints_coverage = subpath_constraints_coverage
         self.subpath_constraints_coverage_length = subpath_constraints_coverage_length
@@ -167,16 +170,18 @@ class MinPathCover(pathmodel.AbstractPathModelDAG):
             if "time_limit" in i_solver_options:
                 i_solver_options["time_limit"] = self.time_limit - self.solve_time_elapsed
 
+            # We pass the internal graph without the global source and sink (the k-model adds its own),
+            # so that the solution paths contain only nodes of the input graph
             model = kpathcover.kPathCover(
-                        G=self.G,
+                        G=self.G_internal,
                         k=i,
                         subpath_constraints=self.subpath_constraints,
                         subpath_constraints_coverage=self.subpath_constraints_coverage,
                         subpath_constraints_coverage_length=self.subpath_constraints_coverage_length,
                         length_attr=self.length_attr,
-                        elements_to_ignore=self.edges_to_ignore,
-                        additional_starts=self.additional_starts,
-                        additional_ends=self.additional_ends,
+                        elements_to_ignore=self.edges_to_ignore_internal,
+                        additional_starts=self.additional_starts_internal,
+                        additional_ends=self.additional_ends_internal,
                         optimization_options=self.optimization_options,
                         solver_options=i_solver_options,
                     )
@@ -184,6 +189,10 @@ class MinPathCover(pathmodel.AbstractPathModelDAG):
 
             if model.is_solved():
                 self._solution = model.get_solution()
+                if self.cover_type == "node":
+                    # Convert the solution paths from the expanded graph to paths in the original graph.
+                    self._solution["_paths_internal"] = self._solution["paths"]
+                    self._solution["paths"] = self.G_internal.get_condensed_paths(self._solution["paths"])
                 self.set_solved()
                 self.solve_statistics = model.solve_statistics
                 self.solve_statistics["mpc_solve_time"] = time.perf_counter() - self.solve_time_start
